@@ -1716,7 +1716,9 @@ void Engine::exec(const Op &o)
                                 do_trigger(evc[(n / 2) % evc.size()], (n & 1) ? (int)o.b : (o.b == CT_READ ? CT_TEST : CT_READ));
                         for (int k = 0; k < 20000 && !stop_now() && !es.overrun; k++) {
                                 int st = service_once();
-                                if (mon.model_ok() ? (st == CAT_STATUS_OK && !mon.events_pending()) : k >= 40)
+                                // until quiescent; with a held command or a partial line in the way (never OK): until nothing more is
+                                // expected from the events of this round, plus the calls that silent events need to leave the ring
+                                if (mon.model_ok() ? (!mon.events_pending() && (st == CAT_STATUS_OK || k >= 8 + 4 * o.d)) : k >= 40)
                                         break;
                         }
                 }
